@@ -186,7 +186,29 @@ func (g *G) issuances(n int) []*base.BatchIssuance {
 }
 
 func (g *G) origin(contract bool) *base.OriginTx {
-	o := &base.OriginTx{Id: g.txHash(), Source: "polygon", Note: "gen"}
+	id := g.txHash()
+	switch r := g.R.Intn(20); {
+	case r < 2 && len(g.originIDs) > 0:
+		// replay of an id used earlier in this history (through whichever entry point comes next)
+		id = g.originIDs[g.R.Intn(len(g.originIDs))]
+		g.bump("origin:replayed-id")
+	case r == 2:
+		id += " " // CreateBatch / MintBatchCredits accept any non-empty id of up to 128 characters
+		g.bump("origin:trailing-space")
+	case r == 3:
+		id = " " + id // rejected by the validators: ids start with a letter or digit
+		g.bump("origin:leading-space(invalid)")
+	case r == 4:
+		id = strings.ToUpper(id)
+		g.bump("origin:upper-case-id")
+	}
+	if len(g.originIDs) < 64 {
+		g.originIDs = append(g.originIDs, id)
+		if strings.TrimSpace(id) != id && g.R.Bool() {
+			g.originIDs = append(g.originIDs, strings.TrimSpace(id)) // a later replay of the trimmed spelling is a DIFFERENT id
+		}
+	}
+	o := &base.OriginTx{Id: id, Source: "polygon", Note: "gen"}
 	if contract {
 		o.Contract = ethAddr(g.R.Intn(4))
 	}
@@ -313,6 +335,11 @@ func opSend(g *G) bool {
 		if others := g.otherHoldings(hs, h); len(others) > 0 {
 			o := others[g.R.Intn(len(others))]
 			a2, _ := g.amount(o.T)
+			if g.R.Chance(1, 4) {
+				a2 = fmtRat(new(big.Rat).Add(o.T, big.NewRat(1, 1)), 6)
+				g.bump("list:overdrawing-entry")
+				note += " (the extra entry overdraws)"
+			}
 			extra := &base.MsgSend_SendCredits{BatchDenom: o.Batch.Denom, TradableAmount: a2}
 			if g.R.Bool() {
 				extra = &base.MsgSend_SendCredits{BatchDenom: o.Batch.Denom, RetiredAmount: a2, RetirementJurisdiction: g.jur()}
@@ -405,6 +432,12 @@ func (g *G) multiCredits(hs []holding, h holding, credits []*base.Credits, note 
 	a2, _ := g.amount(o.T)
 	g.bump("multi:credits-different-batches")
 	*note += ", two different batches in one message"
+	if g.R.Chance(1, 4) {
+		// the extra entry overdraws its batch: the whole message must fail wherever the entry stands
+		a2 = fmtRat(new(big.Rat).Add(o.T, big.NewRat(1, 1)), 6)
+		g.bump("list:overdrawing-entry")
+		*note += " (the extra entry overdraws)"
+	}
 	if g.R.Bool() {
 		return append(credits, chain.Credits(o.Batch.Denom, a2))
 	}
